@@ -35,6 +35,11 @@ type UOp struct {
 	Name   string   `json:"name,omitempty"`
 	Perm   uint32   `json:"perm,omitempty"`
 	Count  uint32   `json:"count,omitempty"`
+	// requests naming a second fid: kind "link" = Tcreate with DMLINK whose
+	// extension is the decimal fid number Afid; kind "attachafid" = Tattach of
+	// Fid with afid Afid
+	Afid uint32 `json:"afid,omitempty"`
+	Ext  string `json:"ext,omitempty"`
 }
 
 func (o *UOp) msg() *ref9p.Msg {
@@ -45,8 +50,10 @@ func (o *UOp) msg() *ref9p.Msg {
 		return &ref9p.Msg{Type: ref9p.Twalk, Fid: o.Fid, Newfid: o.Newfid, Wname: o.Names}
 	case "open", "fifo", "late":
 		return &ref9p.Msg{Type: ref9p.Topen, Fid: o.Fid, Mode: o.Mode}
-	case "create":
-		return &ref9p.Msg{Type: ref9p.Tcreate, Fid: o.Fid, Name: o.Name, Perm: o.Perm, Mode: o.Mode}
+	case "create", "link":
+		return &ref9p.Msg{Type: ref9p.Tcreate, Fid: o.Fid, Name: o.Name, Perm: o.Perm, Mode: o.Mode, Ext: o.Ext}
+	case "attachafid":
+		return &ref9p.Msg{Type: ref9p.Tattach, Fid: o.Fid, Afid: o.Afid, Uname: "root", Aname: "", Nuname: 0}
 	case "read":
 		return &ref9p.Msg{Type: ref9p.Tread, Fid: o.Fid, Offset: 0, Count: o.Count}
 	case "clunk":
@@ -184,7 +191,8 @@ func runUfs(c *Case, res *result) (err error) {
 	g0 := libGors()
 	u := new(go9p.Ufs)
 	u.Dotu, u.Id, u.Root, u.Msize, u.Maxpend, u.Log = true, "ufs", root, 8192, c.Maxpend, sharedLog
-	if !u.Start(u) {
+	uo := newUfsOps(u)
+	if !u.Start(uo) {
 		return &hangError{"harness: Ufs.Start failed"}
 	}
 	dial := func(name string) *xport.End { return ufsrv.Conn(u, name) }
@@ -244,6 +252,12 @@ func runUfs(c *Case, res *result) (err error) {
 			var cr, us []uint32
 			switch o.Kind {
 			case "attach":
+				cr = []uint32{o.Fid}
+			case "attachafid":
+				cr = []uint32{o.Fid}
+				us = []uint32{o.Afid}
+			case "link":
+				us = []uint32{o.Fid, o.Afid}
 				cr = []uint32{o.Fid}
 			case "walk":
 				us = []uint32{o.Fid}
@@ -395,7 +409,7 @@ func runUfs(c *Case, res *result) (err error) {
 	for _, t := range waitTags {
 		whos = append(whos, reqWho(vid, t))
 	}
-	return (&ufsEnv{c: c, res: res, k: k, u: u, root: root, by: by, g0: g0, g1: g1, vid: vid}).finish(whos)
+	return (&ufsEnv{c: c, res: res, k: k, u: u, uo: uo, root: root, by: by, g0: g0, g1: g1, vid: vid}).finish(whos)
 }
 
 // ufsEnv is what the part of a Ufs case after the disconnect needs.
@@ -408,6 +422,7 @@ type ufsEnv struct {
 	by     *bystander
 	g0, g1 map[int]gor
 	vid    string
+	uo     *ufsOps // FidDestroy log (nil: not recorded)
 }
 
 // finish: the victim has been cut and every request that was executing has
@@ -506,6 +521,18 @@ func (e *ufsEnv) finish(whos []string) error {
 			hx.Known(FindCloseVsInflight, msg)
 		} else {
 			return errors.New(msg)
+		}
+	}
+	// ---- the FidDestroy oracle: every fid Ufs was shown on the victim is
+	// reported destroyed exactly once, none of the bystander's
+	if e.uo != nil {
+		if bad := e.uo.verdict(vid); len(bad) > 0 {
+			msg := strings.Join(bad, "; ")
+			if hx.IsKnown(FindCloseVsInflight) && res.effective > 0 {
+				hx.Known(FindCloseVsInflight, msg)
+			} else {
+				return errors.New(msg)
+			}
 		}
 	}
 	if n := connCount(&u.Srv); n != 1 {
@@ -624,6 +651,10 @@ func genUfsCase(t *rapid.T, maxObj int, enum bool) *Case {
 		if (what == "file" || what == "dir") && rapid.IntRange(0, 4).Draw(t, "clunk") == 0 {
 			c.Ops = append(c.Ops, UOp{Kind: rapid.SampledFrom([]string{"clunk", "clunk", "remove"}).Draw(t, "ck"), Fid: fid})
 		}
+	}
+	// one session in two goes on with requests that name a second fid
+	if rapid.Bool().Draw(t, "secondfid?") {
+		genSecondFid(t, c, n)
 	}
 	// at most one blocked open per FIFO, at most 4 requests executing at the cut
 	nfifo := 0
